@@ -43,3 +43,24 @@ def matcher_accepts(mode, pats, name, kwargs):
 def group_count(mode, pats, kwargs):
     inc, _ = _mod(mode).translate(pats, **kwargs)
     return [re.compile(r).groups for r in inc]
+
+
+def decomposed_accepts(mode, incs, excs, name, single_flags, neg_all):
+    """OR(single inclusion matches) AND NOT OR(single exclusion matches with DOTMATCH forced)."""
+    m = _mod(mode)
+    fn = getattr(m, 'fnmatch' if mode == 'fn' else 'globmatch')
+    dflag = m.DOTMATCH if mode == 'fn' else m.DOTGLOB
+    nodir = getattr(m, 'NODIR', 0)
+    hit = any(p != '' and fn(name, p, flags=single_flags) for p in incs)
+    if neg_all:
+        hit = hit or fn(name, '**', flags=single_flags | (m.GLOBSTAR if mode == 'gl' else 0))
+    if not hit:
+        return False
+    return not any(e != '' and fn(name, e, flags=(single_flags | dflag) & ~nodir) for e in excs)
+
+
+def list_lengths(mode, pats, kwargs):
+    m = _mod(mode)
+    t = m.translate(pats, **kwargs)
+    c = m.compile(pats, **kwargs)._matcher
+    return [[len(t[0]), len(t[1])], [len(c._include), len(c._exclude or ())]]
